@@ -16,6 +16,7 @@ Facts: `facts(path, upto)` turns the branch decisions before event index `upto` 
     ("none", src, True|False)                 src is None / src is not None
     ("truthy", src, True|False)               bool(src)
     ("cmp", op, left-src, right-src, True|False)   other comparisons, kept verbatim
+    ("or", (alt1-atoms, alt2-atoms, ...))          at least one alternative's atoms hold
 with `not`, `and` (when taken) and `or` (when not taken) decomposed.  Sources are normalised with single-assignment local
 aliases substituted (`a, b = self._x, y.z`).
 """
@@ -135,6 +136,9 @@ def atoms(test, outcome, al=None):
         elif isinstance(test.op, ast.Or) and not outcome:
             for v in test.values:
                 out += atoms(v, False, al)
+        else:
+            # a disjunction of alternatives: (A or B) taken / (A and B) not taken
+            out.append(("or", tuple(tuple(atoms(v, outcome, al)) for v in test.values)))
         return out
     if isinstance(test, ast.Compare) and len(test.ops) == 1:
         op, l, r = test.ops[0], test.left, test.comparators[0]
